@@ -75,20 +75,35 @@ def _reads_of(stmts, name):
     return bool(found)
 
 
-def _staged_read_in_block(q_ir, new, buf):
-    """is the staging buffer `new` read anywhere except in the store-back `buf[..] = new[..]`?"""
+def _new_alloc_sym(p_ir, q_ir, new):
+    """the Sym of the allocation named `new` that q has and p has not (None if not unique)"""
+    old = {id(s.name) for _, s in irx.all_stmts(p_ir) if isinstance(s, LoopIR.Alloc)}
+    old_syms = {s.name for _, s in irx.all_stmts(p_ir) if isinstance(s, LoopIR.Alloc)}
+    cands = []
+    for _, s in irx.all_stmts(q_ir):
+        if isinstance(s, LoopIR.Alloc) and str(s.name) == new and s.name not in old_syms and s.name not in cands:
+            cands.append(s.name)
+    return cands[0] if len(cands) == 1 else None
+
+
+def _staged_read_in_block(q_ir, new, buf, new_sym=None):
+    """is the staging buffer `new` read anywhere except in the store-back `buf[..] = new[..]`?
+    (identified by Sym when the caller could determine it: the name may clash with an older buffer)"""
     hit = []
 
+    def is_new(nm):
+        return (nm == new_sym) if new_sym is not None else (str(nm) == new)
+
     def ve(e):
-        if isinstance(e, (LoopIR.Read, LoopIR.WindowExpr)) and str(e.name) == new:
+        if isinstance(e, (LoopIR.Read, LoopIR.WindowExpr)) and is_new(e.name):
             hit.append(e)
         for _, _, c in irx.expr_children_attr(e):
             ve(c)
 
     def vs(s):
-        if isinstance(s, LoopIR.Reduce) and str(s.name) == new:
+        if isinstance(s, LoopIR.Reduce) and is_new(s.name):
             hit.append(s)
-        if isinstance(s, (LoopIR.Assign, LoopIR.Reduce)) and str(s.name) == buf and isinstance(s.rhs, LoopIR.Read) and str(s.rhs.name) == new:
+        if isinstance(s, (LoopIR.Assign, LoopIR.Reduce)) and str(s.name) == buf and isinstance(s.rhs, LoopIR.Read) and is_new(s.rhs.name):
             for i in s.idx:
                 ve(i)
         else:
@@ -150,7 +165,17 @@ def cause_of(ev, p, q, kind, detail=None):
         if len(strs) >= 2:
             new = strs[1]
         if buf is not None and new is not None and q_ir is not None:
-            parts.append("staged-copy-read-in-block" if _staged_read_in_block(q_ir, new, buf) else "staged-copy-only-written")
+            nsym = _new_alloc_sym(p_ir, q_ir, new)
+            parts.append("staged-copy-read-in-block" if _staged_read_in_block(q_ir, new, buf, nsym) else "staged-copy-only-written")
+    if op == "sink_alloc" and spec:
+        # the statement after the allocation is an if with an else branch (the else copy gets a fresh,
+        # unused Sym -- tests/golden/test_schedules/test_sink_alloc_when_if_has_else.txt pins that output)
+        try:
+            par = block_stmts(p_ir, {"t": "block", "p": spec["p"][:-1], "attr": spec["p"][-1][0], "lo": spec["p"][-1][1] + 1, "hi": spec["p"][-1][1] + 2})
+            if par and isinstance(par[0], LoopIR.If) and par[0].orelse:
+                parts.append("scope-has-else")
+        except Exception:
+            pass
     if op in ("inline_assign",) and blk:
         s = blk[0]
         if isinstance(s, LoopIR.Assign):
